@@ -447,7 +447,7 @@ class TreeGen:
     def leaf(self):
         from hypothesis import strategies as st
 
-        names = ["LeafA", "LeafA", "LeafB", "SubLeafA", "Strs", "Vals"]
+        names = ["LeafA", "LeafA", "LeafB", "SubLeafA", "Strs", "Vals", "TagA", "SlotLeaf"]
         if self.falsy:
             names.append("Falsy")
         if self.servals:
@@ -529,6 +529,14 @@ class TreeGen:
             }
         )
         opts = [uni, seq, mixed, inh]
+        for cn in ("PairAB", "PairBA"):  # same child field names, other declaration order
+            opts.append(st.fixed_dictionaries({"c": st.just(cn), "o": self.origin(),
+                                               "k": st.fixed_dictionaries({"left": opt, "right": opt})}))
+        opts.append(st.fixed_dictionaries({"c": st.just("MixedRev"), "o": self.origin(),
+                                           "k": st.fixed_dictionaries({"items": opt, "child": items})}))
+        for cn in ("TagB", "Both", "Both"):  # multiple inheritance: fields from two bases
+            opts.append(st.fixed_dictionaries({"c": st.just(cn), "o": self.origin(), "p": self.props(cn),
+                                               "k": st.fixed_dictionaries({"kid": opt})}))
         if self.bombs:
             bomb = st.fixed_dictionaries(
                 {"c": st.just("BombNode"), "o": self.origin(), "p": self.props("BombNode"),
